@@ -303,7 +303,14 @@ class R1(object):
                     self.block(tc, st[3], rec, made)
             elif op == "with":
                 ck = st[2]
-                if ck in ("S0", "S1", "P0"):
+                if ck == "R0":
+                    old = self.sv["S0"]
+                    self.sv["S0"] = ("ovR",)
+                    try:
+                        self.block(tc, st[3], rec, made)
+                    finally:
+                        self.sv["S0"] = old
+                elif ck in ("S0", "S1", "P0"):
                     old = self.sv[ck]
                     self.sv[ck] = ("ov", st[1])
                     try:
